@@ -23,14 +23,29 @@ type treeParser struct {
 	types   map[string][]*Node
 	markers map[string]*Node
 	pending map[string][]*Node // forward references: placeholder nodes to patch
+	open    map[string]bool    // markers whose value is still being read
+	cyclic  bool               // a reference to a marker inside that marker's own value
 }
 
 // ParseTree parses BeginDocument Version [record types] value EndDocument.
 func ParseTree(evs []Ev) (*Node, bool) {
-	p := &treeParser{evs: evs, ok: true, types: map[string][]*Node{}, markers: map[string]*Node{}, pending: map[string][]*Node{}}
+	root, ok, cyclic := ParseTreeCyclic(evs)
+	return root, ok && !cyclic
+}
+
+// ParseTreeCyclic also reports whether the document refers to a marker from
+// inside that marker's own value (the value tree is then not a finite tree and
+// must not be compared).
+func ParseTreeCyclic(evs []Ev) (*Node, bool, bool) {
+	root, ok, p := parseTree(evs)
+	return root, ok, p.cyclic
+}
+
+func parseTree(evs []Ev) (*Node, bool, *treeParser) {
+	p := &treeParser{evs: evs, ok: true, types: map[string][]*Node{}, markers: map[string]*Node{}, pending: map[string][]*Node{}, open: map[string]bool{}}
 	p.skip()
 	if !p.expect(KBeginDocument) || !p.expect(KVersion) {
-		return nil, false
+		return nil, false, p
 	}
 	for p.peek() == KRecordType {
 		id := string(p.next().S)
@@ -46,9 +61,9 @@ func ParseTree(evs []Ev) (*Node, bool) {
 		root = p.value()
 	}
 	if !p.expect(KEndDocument) || p.pos != len(p.evs) || len(p.pending) != 0 {
-		return nil, false
+		return nil, false, p
 	}
-	return root, p.ok
+	return root, p.ok, p
 }
 
 func (p *treeParser) skip() {
@@ -123,7 +138,9 @@ func (p *treeParser) value() *Node {
 		return n
 	case KMarker:
 		id := string(e.S)
+		p.open[id] = true
 		n := p.value()
+		delete(p.open, id)
 		p.markers[id] = n
 		for _, ph := range p.pending[id] {
 			*ph = *n
@@ -137,6 +154,10 @@ func (p *treeParser) value() *Node {
 		}
 		if n, ok := p.markers[id]; ok {
 			return n
+		}
+		if p.open[id] {
+			p.cyclic = true
+			return &Node{Ev: Ev{K: KError}}
 		}
 		ph := &Node{Ev: Ev{K: KError}}
 		p.pending[id] = append(p.pending[id], ph)
